@@ -373,6 +373,13 @@ pub fn network(rng: &mut Rng, o: &NetOpts) -> GenNet {
     let all_types = [TrainType::Freight, TrainType::Passenger, TrainType::Intermodal];
     let ntypes = rng.usize(1, 3);
     let types: Vec<TrainType> = all_types[..ntypes].to_vec();
+    // typed speed sets may also carry an entry for a type no generated train has (here: TrainType::None), with
+    // limits of its own; it must never influence a train of another type
+    let mut set_types = types.clone();
+    if rng.chance(0.15) {
+        set_types.push(TrainType::None);
+        flags.push("speed_set_for_an_unused_type");
+    }
     // segments
     let mut segs: Vec<Seg> = vec![];
     let mut gap_segs: Vec<Vec<usize>> = vec![];
@@ -386,7 +393,7 @@ pub fn network(rng: &mut Rng, o: &NetOpts) -> GenNet {
                 1 => true,
                 _ => rng.chance(0.5),
             };
-            let (s, z1) = make_seg(rng, o, z, z_end, typed, &types, &mut flags);
+            let (s, z1) = make_seg(rng, o, z, z_end, typed, &set_types, &mut flags);
             if z_end.is_none() {
                 z_end = Some(z1);
             }
